@@ -30,6 +30,13 @@ where
     tracing::trace!("h11c_connect: channel={}", frame_channel);
     let target = ctx.read().await.target();
     let feature = ctx.read().await.feature();
+    // the target is written into the request line and the Host header as is: blanks, line breaks or
+    // other control characters would change what the upstream reads
+    if let crate::context::TargetAddress::DomainPort(host, _) = &target {
+        if host.bytes().any(|b| b <= b' ' || b == 0x7f) {
+            bail!("host name can not be sent in a CONNECT request: {:?}", host);
+        }
+    }
     match feature {
         Feature::TcpForward => {
             HttpRequest::new("CONNECT", &target)
